@@ -20,5 +20,5 @@ def body(rec, c):
     run_history(rec, PROPERTY, c, NT)
 
 
-CHECKS = [Check("history", body, lambda: {"c": config_case(**KW)}, quick=7, thorough=30, quick_shards=16,
+CHECKS = [Check("history", body, lambda: {"c": config_case(**KW)}, quick=7, thorough=80, quick_shards=16,
                 thorough_shards=16, shrink_quick=False)]
